@@ -15,7 +15,7 @@ theorem applyOps_cons (fs : FS) (o : FsOp) (r : List FsOp) : applyOps fs (o :: r
 theorem zero_step (off c : Nat) (tail : Bytes) :
     (zeros off ++ tail).take off ++ zeros c ++ (zeros off ++ tail).drop (off + c) = zeros (off + c) ++ tail.drop c := by
   have h1 : (zeros off ++ tail).take off = zeros off := by
-    simp [zeros, List.take_append]
+    simp [zeros]
   have h2 : (zeros off ++ tail).drop (off + c) = tail.drop c := by
     simp [zeros, List.drop_append]
   rw [h1, h2]
@@ -174,46 +174,384 @@ theorem wipeOps_other (cfg : Cfg) (fs : FS) {p q : Name} (h : p ≠ q) :
     aget (applyOps fs (wipeOps cfg fs p)) q = aget fs q :=
   applyOps_other h _ _ (wipeOps_touches cfg fs p)
 
-/-- wiping from a possibly different (earlier) view of the directory still only touches `p` -/
-theorem persistOps_self (cfg : Cfg) (fs : FS) (p : Name) (data : Bytes) :
-    aget (applyOps fs (persistOps cfg fs p data)) p = some data := by
-  simp only [persistOps]
-  rw [applyOps_append, applyOps_cons, applyOps_cons, applyOps_nil]
-  simp [applyOp, aget_aset_self]
+/-! ### routines with I/O errors -/
 
-theorem persistOps_touches (cfg : Cfg) (fs : FS) (p : Name) (data : Bytes) :
-    ∀ o ∈ persistOps cfg fs p data, touchesOnly p o := by
-  intro o h
-  simp only [persistOps] at h
-  rcases List.mem_append.mp h with h | h
-  · exact wipeOps_touches cfg fs p o h
-  · simp at h; rcases h with h | h <;> subst h <;> rfl
+/-- operations that can never bring a file into existence -/
+def wipeish : FsOp → Prop
+  | .zero _ _ _ | .remove _ => True
+  | _ => False
 
-theorem putOps_touches (cfg : Cfg) (s : Recs) (fs : FS) (id : String) (data : Bytes) :
-    ∀ o ∈ putOps cfg s fs id data, touchesOnly (.chunk id) o := by
-  intro o h
-  simp only [putOps] at h
-  rcases List.mem_append.mp h with h | h
-  · split at h
-    · split at h
-      · exact wipeOps_touches _ _ _ o h
-      · simp at h
+theorem applyOp_absent_of_wipeish {fs : FS} {q : Name} {o : FsOp} (hw : wipeish o) (h : aget fs q = none) :
+    aget (applyOp fs o) q = none := by
+  cases o with
+  | create x => cases hw
+  | append x bs => cases hw
+  | zero x off len =>
+    simp only [applyOp]
+    by_cases hx : x = q
+    · subst hx; rw [h]; exact h
+    · split
+      · rw [aget_aset_ne _ _ hx]; exact h
+      · exact h
+  | remove x =>
+    simp only [applyOp]
+    by_cases hx : x = q
+    · subst hx; exact aget_adel_self _ _
+    · rw [aget_adel_ne _ hx]; exact h
+
+theorem applyOps_absent_of_wipeish {q : Name} (ops : List FsOp) (fs : FS) (hw : ∀ o ∈ ops, wipeish o)
+    (h : aget fs q = none) : aget (applyOps fs ops) q = none := by
+  induction ops generalizing fs with
+  | nil => exact h
+  | cons o r ih =>
+    rw [applyOps_cons]
+    exact ih _ (fun o' ho' => hw o' (List.mem_cons_of_mem _ ho')) (applyOp_absent_of_wipeish (hw o List.mem_cons_self) h)
+
+/-- operations each of which touches some name other than `q` leave `q` alone -/
+theorem applyOps_untouched {q : Name} (ops : List FsOp) (fs : FS)
+    (h : ∀ o ∈ ops, ∃ p, p ≠ q ∧ touchesOnly p o) : aget (applyOps fs ops) q = aget fs q := by
+  induction ops generalizing fs with
+  | nil => rfl
+  | cons o r ih =>
+    rw [applyOps_cons, ih _ (fun o' ho' => h o' (List.mem_cons_of_mem _ ho'))]
+    obtain ⟨p, hp, ht⟩ := h o List.mem_cons_self
+    exact applyOp_other hp fs ht
+
+theorem faultAt_nil (i : Nat) : faultAt [] i = none := rfl
+
+theorem truncOp_touches {p : Name} {o : FsOp} (h : touchesOnly p o) (s : Nat) : ∀ o' ∈ truncOp o s, touchesOnly p o' := by
+  intro o' ho'
+  cases o with
+  | create x => simp [truncOp] at ho'
+  | remove x => simp [truncOp] at ho'
+  | append x bs =>
+    simp only [truncOp] at ho'
+    split at ho'
+    · simp at ho'
+    · simp at ho'; subst ho'; exact h
+  | zero x off len =>
+    simp only [truncOp] at ho'
+    split at ho'
+    · simp at ho'
+    · simp at ho'; subst ho'; exact h
+
+theorem truncOp_wipeish {o : FsOp} (h : wipeish o) (s : Nat) : ∀ o' ∈ truncOp o s, wipeish o' := by
+  intro o' ho'
+  cases o with
+  | create x => cases h
+  | append x bs => cases h
+  | remove x => simp [truncOp] at ho'
+  | zero x off len =>
+    simp only [truncOp] at ho'
+    split at ho'
+    · simp at ho'
+    · simp at ho'; subst ho'; trivial
+
+theorem writesF_mem {P : FsOp → Prop} (φ : Faults) (ops : List FsOp) (n : Nat)
+    (h : ∀ o ∈ ops, P o) (ht : ∀ o, P o → ∀ s, ∀ o' ∈ truncOp o s, P o') :
+    ∀ o ∈ (writesF φ ops n).1, P o := by
+  induction ops generalizing n with
+  | nil => intro o ho; simp [writesF] at ho
+  | cons x r ih =>
+    intro o ho
+    simp only [writesF] at ho
+    split at ho
+    · exact ht x (h x List.mem_cons_self) _ o ho
+    · rcases List.mem_cons.mp ho with ho | ho
+      · subst ho; exact h _ List.mem_cons_self
+      · exact ih _ (fun o' ho' => h o' (List.mem_cons_of_mem _ ho')) o ho
+
+theorem passOps_wipeish (p : Name) (fuel off rem : Nat) : ∀ o ∈ passOps p fuel off rem, wipeish o := by
+  induction fuel generalizing off rem with
+  | zero => intro o h; simp [passOps] at h
+  | succ n ih =>
+    intro o h
+    simp only [passOps] at h
+    split at h
     · simp at h
-  · split at h
-    · exact persistOps_touches _ _ _ _ o h
-    · simp at h
+    · rcases List.mem_cons.mp h with h | h
+      · subst h; trivial
+      · exact ih _ _ o h
 
-theorem putOps_other (cfg : Cfg) (s : Recs) (fs : FS) (id : String) (data : Bytes) {q : Name} (h : Name.chunk id ≠ q) :
-    aget (applyOps fs (putOps cfg s fs id data)) q = aget fs q :=
-  applyOps_other h _ _ (putOps_touches cfg s fs id data)
+theorem overwriteOps_wipeish (p : Name) (size passes : Nat) : ∀ o ∈ overwriteOps p size passes, wipeish o := by
+  intro o h
+  simp only [overwriteOps, List.mem_flatten, List.mem_replicate] at h
+  obtain ⟨l, ⟨_, rfl⟩, ho⟩ := h
+  exact passOps_wipeish p _ _ _ o ho
 
-theorem putOps_self (cfg : Cfg) (hp : cfg.persistent = true) (s : Recs) (fs : FS) (id : String) (data : Bytes) :
-    aget (applyOps fs (putOps cfg s fs id data)) (.chunk id) = some data := by
-  simp only [putOps, hp, if_true]
-  rw [applyOps_append]
-  exact persistOps_self _ _ _ _
+/-- every operation of a (possibly failing) wipe touches only `p` and cannot create a file -/
+theorem wipeF_ops (cfg : Cfg) (φ : Faults) (fs : FS) (p : Name) (n : Nat) :
+    ∀ o ∈ (wipeF cfg φ fs p n).1, touchesOnly p o ∧ wipeish o := by
+  intro o ho
+  unfold wipeF at ho
+  cases hg : aget fs p with
+  | none => simp [hg] at ho
+  | some bs =>
+    simp only [hg] at ho
+    cases hf : faultAt φ n with
+    | some s => simp [hf] at ho
+    | none =>
+      simp only [hf] at ho
+      have hw : ∀ o ∈ (writesF φ (overwriteOps p bs.length cfg.passes) (n + 1)).1, touchesOnly p o ∧ wipeish o :=
+        writesF_mem (P := fun o => touchesOnly p o ∧ wipeish o) φ _ _
+          (fun o ho => ⟨overwriteOps_touches p _ _ o ho, overwriteOps_wipeish p _ _ o ho⟩)
+          (fun o hP s o' ho' => ⟨truncOp_touches hP.1 s o' ho', truncOp_wipeish hP.2 s o' ho'⟩)
+      cases hf2 : faultAt φ (writesF φ (overwriteOps p bs.length cfg.passes) (n + 1)).2.1 with
+      | some s => simp only [hf2] at ho; exact hw o ho
+      | none =>
+        simp only [hf2] at ho
+        rcases List.mem_append.mp ho with ho | ho
+        · exact hw o ho
+        · simp at ho; subst ho; exact ⟨rfl, trivial⟩
 
-/-- every prefix of a put's operations also leaves other names alone (crash states) -/
+theorem wipeF_touches (cfg : Cfg) (φ : Faults) (fs : FS) (p : Name) (n : Nat) :
+    ∀ o ∈ (wipeF cfg φ fs p n).1, touchesOnly p o := fun o ho => (wipeF_ops cfg φ fs p n o ho).1
+
+/-- a wipe that reports success has removed the file -/
+theorem wipeF_ok (cfg : Cfg) (φ : Faults) (fs : FS) (p : Name) (n : Nat)
+    (h : (wipeF cfg φ fs p n).2.2 = true) : aget (applyOps fs (wipeF cfg φ fs p n).1) p = none := by
+  simp only [wipeF] at h ⊢
+  split
+  · rename_i hg; simpa [applyOps] using hg
+  · rename_i bs hg
+    simp only [hg] at h
+    split
+    · rename_i hf; simp [hf] at h
+    · rename_i hf
+      simp only [hf] at h
+      split
+      · rename_i hf2; simp [hf2] at h
+      · rw [applyOps_append, applyOps_cons, applyOps_nil]
+        simp [applyOp, aget_adel_self]
+
+/-- without I/O errors the wipe is the plain operation list and succeeds -/
+theorem wipeF_nofault (cfg : Cfg) (fs : FS) (p : Name) (n : Nat) :
+    (wipeF cfg [] fs p n).1 = wipeOps cfg fs p ∧ (wipeF cfg [] fs p n).2.2 = true := by
+  have hw : ∀ (ops : List FsOp) (m : Nat), (writesF [] ops m).1 = ops := by
+    intro ops
+    induction ops with
+    | nil => intro m; rfl
+    | cons o r ih => intro m; simp [writesF, faultAt_nil, ih]
+  simp only [wipeF, wipeOps]
+  cases aget fs p with
+  | none => exact ⟨rfl, rfl⟩
+  | some bs => simp [faultAt_nil, hw]
+
+/-! #### persist -/
+
+theorem persistF_touches (cfg : Cfg) (φ : Faults) (fs : FS) (p : Name) (data : Bytes) (n : Nat) :
+    ∀ o ∈ (persistF cfg φ fs p data n).ops, touchesOnly p o := by
+  intro o ho
+  have hc : touchesOnly p (.create p) := rfl
+  have ha : ∀ s, ∀ o' ∈ truncOp (.append p data) s, touchesOnly p o' := fun s => truncOp_touches (o := .append p data) rfl s
+  simp only [persistF] at ho
+  split at ho
+  · rcases List.mem_append.mp ho with ho | ho
+    · exact wipeF_touches _ _ _ _ _ o ho
+    · exact wipeF_touches _ _ _ _ _ o ho
+  · split at ho
+    · rcases List.mem_append.mp ho with ho | ho
+      · exact wipeF_touches _ _ _ _ _ o ho
+      · simp at ho; subst ho; rfl
+    · split at ho
+      · rcases List.mem_append.mp ho with ho | ho
+        · rcases List.mem_append.mp ho with ho | ho
+          · exact wipeF_touches _ _ _ _ _ o ho
+          · rcases List.mem_cons.mp ho with ho | ho
+            · subst ho; rfl
+            · exact ha _ o ho
+        · exact wipeF_touches _ _ _ _ _ o ho
+      · rcases List.mem_append.mp ho with ho | ho
+        · exact wipeF_touches _ _ _ _ _ o ho
+        · simp at ho; rcases ho with ho | ho <;> subst ho <;> rfl
+
+/-- a store that reports success left exactly the payload in the file and owes no wipe -/
+theorem persistF_ok (cfg : Cfg) (φ : Faults) (fs : FS) (p : Name) (data : Bytes) (n : Nat)
+    (h : (persistF cfg φ fs p data n).ok = true) :
+    aget (applyOps fs (persistF cfg φ fs p data n).ops) p = some data ∧ (persistF cfg φ fs p data n).defer = false := by
+  simp only [persistF] at h ⊢
+  split
+  · rename_i hf; simp [hf] at h
+  · rename_i hf
+    simp only [hf] at h
+    split
+    · rename_i he
+      refine ⟨?_, rfl⟩
+      rw [applyOps_append, applyOps_cons, applyOps_nil]
+      have : data = [] := by simpa using he
+      simp [applyOp, aget_aset_self, this]
+    · rename_i he
+      simp only [he] at h
+      split
+      · rename_i hf2; simp [hf2] at h
+      · refine ⟨?_, rfl⟩
+        rw [applyOps_append, applyOps_cons, applyOps_cons, applyOps_nil]
+        simp [applyOp, aget_aset_self]
+
+/-- a store that reports failure and owes no wipe left no file -/
+theorem persistF_failed (cfg : Cfg) (φ : Faults) (fs : FS) (p : Name) (data : Bytes) (n : Nat)
+    (h : (persistF cfg φ fs p data n).ok = false) (hd : (persistF cfg φ fs p data n).defer = false) :
+    aget (applyOps fs (persistF cfg φ fs p data n).ops) p = none := by
+  simp only [persistF] at h hd ⊢
+  split
+  · rename_i hf
+    simp only [hf, Bool.not_eq_false'] at hd
+    rw [applyOps_append]
+    exact wipeF_ok _ _ _ _ _ hd
+  · rename_i hf
+    simp only [hf] at h hd
+    split
+    · rename_i he; simp [he] at h
+    · rename_i he
+      simp only [he, Bool.false_eq_true, if_false] at h hd
+      split
+      · rename_i s hf2
+        simp only [hf2, Bool.not_eq_false'] at hd
+        rw [applyOps_append, applyOps_append]
+        exact wipeF_ok _ _ _ _ _ hd
+      · rename_i hf2; simp [hf2] at h
+
+/-! #### put -/
+
+theorem putF_touches (cfg : Cfg) (φ : Faults) (s : Recs) (fs : FS) (pend : List Name) (id : String) (data : Bytes) :
+    ∀ o ∈ (putF cfg φ s fs pend id data).ops, touchesOnly (.chunk id) o := by
+  intro o ho
+  have h1 : ∀ o ∈ (oldWipeF cfg φ s fs id).1, touchesOnly (.chunk id) o := by
+    intro o ho
+    unfold oldWipeF at ho
+    split at ho
+    · split at ho
+      · exact wipeF_touches _ _ _ _ _ o ho
+      · simp at ho
+    · simp at ho
+  simp only [putF] at ho
+  split at ho
+  · rcases List.mem_append.mp ho with ho | ho
+    · exact h1 o ho
+    · exact persistF_touches _ _ _ _ _ _ o ho
+  · exact h1 o ho
+
+theorem putF_other (cfg : Cfg) (φ : Faults) (s : Recs) (fs : FS) (pend : List Name) (id : String) (data : Bytes)
+    {q : Name} (h : Name.chunk id ≠ q) :
+    aget (applyOps fs (putF cfg φ s fs pend id data).ops) q = aget fs q :=
+  applyOps_other h _ _ (putF_touches cfg φ s fs pend id data)
+
+/-- the retry list changes only at the path being stored -/
+theorem putF_pending_other (cfg : Cfg) (φ : Faults) (s : Recs) (fs : FS) (pend : List Name) (id : String) (data : Bytes)
+    {q : Name} (h : Name.chunk id ≠ q) : q ∈ (putF cfg φ s fs pend id data).pending ↔ q ∈ pend := by
+  have hq : q ≠ Name.chunk id := fun hh => h hh.symm
+  simp only [putF]
+  generalize oldWipeF cfg φ s fs id = o1
+  by_cases hp : cfg.persistent = true
+  · simp only [hp, if_true]
+    by_cases hd : (persistF cfg φ (applyOps fs o1.1) (Name.chunk id) data o1.2.1).defer = true <;>
+      by_cases ho : o1.2.2 = true <;> simp [hd, ho, List.mem_filter, hq]
+  · rw [if_neg hp]
+    by_cases ho : o1.2.2 = true <;> simp [ho, hq]
+
+/-- with persistence on: a record stored as persisted has its file and owes no wipe; a record
+    stored as not persisted has no file unless a wipe is owed for the path -/
+theorem putF_self (cfg : Cfg) (hp : cfg.persistent = true) (φ : Faults) (s : Recs) (fs : FS) (pend : List Name)
+    (id : String) (data : Bytes) :
+    ((putF cfg φ s fs pend id data).persisted = true →
+      aget (applyOps fs (putF cfg φ s fs pend id data).ops) (.chunk id) = some data ∧
+      Name.chunk id ∉ (putF cfg φ s fs pend id data).pending) ∧
+    ((putF cfg φ s fs pend id data).persisted = false → Name.chunk id ∉ (putF cfg φ s fs pend id data).pending →
+      aget (applyOps fs (putF cfg φ s fs pend id data).ops) (.chunk id) = none) := by
+  simp only [putF, hp, if_true]
+  generalize oldWipeF cfg φ s fs id = o1
+  constructor
+  · intro hok
+    obtain ⟨h1, h2⟩ := persistF_ok _ _ _ _ _ _ hok
+    refine ⟨by rw [applyOps_append]; exact h1, ?_⟩
+    simp [h2, List.mem_filter]
+  · intro hnok hnp
+    rw [applyOps_append]
+    apply persistF_failed _ _ _ _ _ _ hnok
+    cases hd : (persistF cfg φ (applyOps fs o1.1) (Name.chunk id) data o1.2.1).defer with
+    | false => rfl
+    | true => simp [hd] at hnp
+
+/-! #### wiping a list of paths (sweep, start-up purge) -/
+
+theorem wipeAllF_cons (cfg : Cfg) (φ : Faults) (p : Name) (rest : List Name) (fs : FS) (n : Nat) :
+    wipeAllF cfg φ (p :: rest) fs n =
+      ((wipeF cfg φ fs p n).1 ++ (wipeAllF cfg φ rest (applyOps fs (wipeF cfg φ fs p n).1) (wipeF cfg φ fs p n).2.1).1,
+       (wipeAllF cfg φ rest (applyOps fs (wipeF cfg φ fs p n).1) (wipeF cfg φ fs p n).2.1).2.1,
+       if (wipeF cfg φ fs p n).2.2 then (wipeAllF cfg φ rest (applyOps fs (wipeF cfg φ fs p n).1) (wipeF cfg φ fs p n).2.1).2.2
+       else p :: (wipeAllF cfg φ rest (applyOps fs (wipeF cfg φ fs p n).1) (wipeF cfg φ fs p n).2.1).2.2) := rfl
+
+theorem wipeAllF_ops (cfg : Cfg) (φ : Faults) (names : List Name) (fs : FS) (n : Nat) :
+    ∀ o ∈ (wipeAllF cfg φ names fs n).1, (∃ p ∈ names, touchesOnly p o) ∧ wipeish o := by
+  induction names generalizing fs n with
+  | nil => intro o ho; simp [wipeAllF] at ho
+  | cons p rest ih =>
+    intro o ho
+    rw [wipeAllF_cons] at ho
+    rcases List.mem_append.mp ho with ho | ho
+    · have := wipeF_ops cfg φ fs p n o ho
+      exact ⟨⟨p, List.mem_cons_self, this.1⟩, this.2⟩
+    · obtain ⟨⟨q, hq, ht⟩, hw⟩ := ih _ _ o ho
+      exact ⟨⟨q, List.mem_cons_of_mem _ hq, ht⟩, hw⟩
+
+theorem wipeAllF_failed_sub (cfg : Cfg) (φ : Faults) (names : List Name) (fs : FS) (n : Nat) :
+    ∀ q ∈ (wipeAllF cfg φ names fs n).2.2, q ∈ names := by
+  induction names generalizing fs n with
+  | nil => intro q hq; simp [wipeAllF] at hq
+  | cons p rest ih =>
+    intro q hq
+    rw [wipeAllF_cons] at hq
+    simp only at hq
+    split at hq
+    · exact List.mem_cons_of_mem _ (ih _ _ q hq)
+    · rcases List.mem_cons.mp hq with hq | hq
+      · subst hq; exact List.mem_cons_self
+      · exact List.mem_cons_of_mem _ (ih _ _ q hq)
+
+/-- a path that was to be wiped and is not reported as failed is gone -/
+theorem wipeAllF_gone (cfg : Cfg) (φ : Faults) (names : List Name) (fs : FS) (n : Nat) (q : Name)
+    (hq : q ∈ names) (hnf : q ∉ (wipeAllF cfg φ names fs n).2.2) :
+    aget (applyOps fs (wipeAllF cfg φ names fs n).1) q = none := by
+  induction names generalizing fs n with
+  | nil => simp at hq
+  | cons p rest ih =>
+    rw [wipeAllF_cons] at hnf ⊢
+    simp only at hnf ⊢
+    rw [applyOps_append]
+    by_cases hpq : p = q
+    · subst hpq
+      by_cases hok : (wipeF cfg φ fs p n).2.2 = true
+      · by_cases hin : p ∈ rest
+        · simp only [hok, if_true] at hnf
+          exact ih _ _ hin hnf
+        · exact applyOps_absent_of_wipeish _ _ (fun o ho => (wipeAllF_ops cfg φ rest _ _ o ho).2) (wipeF_ok _ _ _ _ _ hok)
+      · simp [hok] at hnf
+    · have hin : q ∈ rest := by
+        rcases List.mem_cons.mp hq with h | h
+        · exact absurd h.symm hpq
+        · exact h
+      apply ih _ _ hin
+      split at hnf
+      · exact hnf
+      · exact fun hh => hnf (List.mem_cons_of_mem _ hh)
+
+/-- a path that was not to be wiped is untouched -/
+theorem wipeAllF_keep (cfg : Cfg) (φ : Faults) (names : List Name) (fs : FS) (n : Nat) (q : Name) (hq : q ∉ names) :
+    aget (applyOps fs (wipeAllF cfg φ names fs n).1) q = aget fs q := by
+  apply applyOps_untouched
+  intro o ho
+  obtain ⟨⟨p, hp, ht⟩, _⟩ := wipeAllF_ops cfg φ names fs n o ho
+  exact ⟨p, fun hh => hq (hh ▸ hp), ht⟩
+
+/-- without I/O errors nothing is left to retry -/
+theorem wipeAllF_nofault (cfg : Cfg) (names : List Name) (fs : FS) (n : Nat) : (wipeAllF cfg [] names fs n).2.2 = [] := by
+  induction names generalizing fs n with
+  | nil => rfl
+  | cons p rest ih =>
+    rw [wipeAllF_cons]
+    simp [(wipeF_nofault cfg fs p n).2, ih]
+
+/-- every prefix of an operation list keeps the "touches only" property (crash states) -/
 theorem take_touches {p : Name} {ops : List FsOp} (h : ∀ o ∈ ops, touchesOnly p o) (k : Nat) :
     ∀ o ∈ ops.take k, touchesOnly p o := fun o ho => h o (List.mem_of_mem_take ho)
 
